@@ -558,6 +558,37 @@ def generate_items(rng, tier, tables):
         a = arch_pick()
         text, exp, desc = models[a].listing()
         add(Item("listing", a, [text], expected=exp), "listing/" + a)
+    # long runs of sites: N unresolved ones (no number in the window), N with unknown numbers, N resolved ones - and a
+    # resolvable site behind them, which must still be found (N around 128, 256, 1000)
+    for n in ([100, 128, 129, 130, 255, 256, 257] if q else [100, 127, 128, 129, 130, 200, 255, 256, 257, 500, 1000, 1024, 1025, 4096]):
+        for flavour in ("unresolved", "unknown-number", "resolved"):
+            a = arch_pick()
+            m = models[a]
+            raw = RAW_INS[a][0].decode()
+            known = sorted(tables[a])
+            lines, exp = ["TEXT main.many(SB) /src/many.go"], []
+            caller1 = b"main.many(SB) /src/many.go"
+            for i in range(n):
+                if flavour == "unresolved":
+                    lines.append(m.line("f.go:%d" % (i + 1), 0x1000 + 8 * i, raw))
+                else:
+                    v = (max(known) + 1000 + i) if flavour == "unknown-number" else known[i % len(known)]
+                    asm = "MOVL $0x%x, AX" % v
+                    lines.append(m.line("f.go:%d" % (i + 1), 0x1000 + 8 * i, asm))
+                    sl = m.line("g.go:%d" % (i + 1), 0x1004 + 8 * i, raw)
+                    lines.append(sl)
+                    if flavour == "resolved":
+                        f = sl.split()
+                        exp.append((v, tables[a][v], caller1, " ".join(f[3:]).encode(), f[0].encode(), asm.encode()))
+            lines.append("TEXT main.last(SB) /src/last.go")
+            v = known[len(known) // 2]
+            asm = "MOVL $0x%x, AX" % v
+            lines.append(m.line("h.go:1", 0x90000, asm))
+            sl = m.line("h.go:2", 0x90004, raw)
+            lines.append(sl)
+            f = sl.split()
+            exp.append((v, tables[a][v], b"main.last(SB) /src/last.go", " ".join(f[3:]).encode(), f[0].encode(), asm.encode()))
+            add(Item("listing", a, [("\n".join(lines) + "\n").encode()], expected=exp), "listing/many-%s" % flavour)
     # the same text under an architecture that shares the parser / is not supported
     for _ in range(12 * scale):
         text, exp, desc = models["X32"].listing()
